@@ -219,6 +219,30 @@ var sharedDeployParser = parsers.NewDeployArgsParser()
 var sharedStorageParser = parsers.NewStorageUpdatesParser()
 var sharedBuilder = txDataBuilder.NewBuilder()
 
+// c12Large puts one element of n bytes (deterministic content) into each of the three formats.
+func c12Large(n int) (string, string) {
+	big := make([]byte, n)
+	for i := range big {
+		big[i] = byte(i*7 + 3)
+	}
+	short := func(sig, msg string) (string, string) {
+		if len(msg) > 600 {
+			msg = msg[:300] + " ... " + msg[len(msg)-200:]
+		}
+		return sig, sprintf("with one element of %d bytes: %s", n, msg)
+	}
+	if sig, msg := c12CallRoundTrip("f", [][]byte{{1}, big, {2, 3}}); sig != "" {
+		return short(sig, msg)
+	}
+	if sig, msg := c12DeployRoundTrip(big, []byte{5, 0}, []byte{1, 0}, [][]byte{{1}, {2}}); sig != "" {
+		return short(sig, msg)
+	}
+	if sig, msg := c12StorageRoundTrip([][2][]byte{{[]byte("k1"), {1}}, {[]byte("k2"), big}, {[]byte("k3"), {3}}}); sig != "" {
+		return short(sig, msg)
+	}
+	return "", ""
+}
+
 func c12CallRoundTrip(fn string, args [][]byte) (string, string) {
 	s := TxEncode(fn, args)
 	gotFn, gotArgs, err := sharedCallParser.ParseData(s)
@@ -456,6 +480,21 @@ func TestC12(t *testing.T) {
 	rec(nil)
 	st.Exhaustive = append(st.Exhaustive, sprintf("call-args, deploy-args and storage-updates parsers on every string of length 0..%d over {f,@,0,a,g,A}", maxLen))
 
+	// size is no concern of a tokenizer: one element of 4 KiB .. 100 kB (a contract's code is routinely above 32 KiB,
+	// i.e. above 64 KiB of hex) in each of the three formats
+	for i, n := range []int{4095, 4096, 4097, 16384, 32767, 32768, 32769, 65535, 65536, 65537, 100000} {
+		if !mine(i) {
+			continue
+		}
+		st.Eval(3)
+		st.NTEnumerated(3)
+		st.Label("roundtrip/large-element")
+		if sig, msg := c12Large(n); sig != "" {
+			failPlain(t, st, "C12", "large-element", n, sig, msg)
+		}
+	}
+	st.Exhaustive = append(st.Exhaustive, "one element of 4095, 4096, 4097, 16384, 32767, 32768, 32769, 65535, 65536, 65537 and 100000 bytes in call data, deploy data and a storage-update list")
+
 	rapid.Check(t, func(rt *rapid.T) {
 		report := func(kind string, payload interface{}, sig, msg string) {
 			if known[sig] {
@@ -635,6 +674,10 @@ func replayC12(kind string, raw json.RawMessage) (string, string) {
 			pairs = append(pairs, [2][]byte{unhx(p[0]), unhx(p[1])})
 		}
 		return c12StorageRoundTrip(pairs)
+	case "large-element":
+		var n int
+		_ = json.Unmarshal(raw, &n)
+		return c12Large(n)
 	case "transfer-parser":
 		var c tpCase
 		_ = json.Unmarshal(raw, &c)
